@@ -49,7 +49,8 @@ def _case(draw):
     else:
         sizes = [draw(st.integers(200, 800)) for _ in range(npop)]
     blank = draw(st.booleans())
-    piled = draw(st.sampled_from([None, None, None, 'brightest', 'dimmest']))
+    # a population may pile up at a detector limit in some channels only
+    piled = [draw(st.sampled_from([None, None, None, 'brightest', 'dimmest'])) for _ in range(nch)]
     unknown = {}
     for c in range(nch):
         if draw(st.sampled_from([False, False, True])):
@@ -76,6 +77,11 @@ def strategy(tier):
 def known_match(entry, case, tag, msg):
     # C02-KF1: equal-quantile EM initialisation mis-groups populations of unequal size
     return entry['id'] == 'C02-KF1' and tag == 'grouping_imbalanced' and max(case['sizes']) / float(min(case['sizes'])) > 1.5
+
+
+def _piled(case, c):
+    p = case['piled']
+    return p[c] if isinstance(p, list) else p
 
 
 def synth(case):
@@ -106,9 +112,9 @@ def synth(case):
         if case['blank']:
             mef[0] = 0.0
         x = np.array(rfi)[labels] * np.exp(rng.normal(0.0, case['cv'], n))
-        if case['piled'] == 'brightest':
+        if _piled(case, c) == 'brightest':
             x[labels == npop - 1] = R - 1.0
-        elif case['piled'] == 'dimmest':
+        elif _piled(case, c) == 'dimmest':
             x[labels == 0] = 0.0
         cols.append(np.clip(x, 0, R - 1.0))
         info.append(dict(rfi=rfi, mef=mef, auto=auto, m=m, b=b))
@@ -158,9 +164,9 @@ def check(case, obs):
             vals[p] = None if how == 'none' else float('nan')
         mef_values.append(vals)
     clustering_channels = [chans[i] for i in case['clustering']]
-    nontriv = nch >= 2 or bool(case['unknown']) or case['piled'] is not None or sorted(case['clustering']) != list(range(nch))
+    nontriv = nch >= 2 or bool(case['unknown']) or any(_piled(case, c) for c in range(nch)) or sorted(case['clustering']) != list(range(nch))
     obs.nontrivial = nontriv
-    obs.label('regime:' + case['regime'], 'channels:%d' % nch, 'piled:%s' % case['piled'], 'blank' if case['blank'] else 'no_blank',
+    obs.label('regime:' + case['regime'], 'channels:%d' % nch, 'piled:%s' % ('mixed' if len({_piled(case, c) for c in range(nch)}) > 1 else _piled(case, 0)), 'blank' if case['blank'] else 'no_blank',
               'unknown' if case['unknown'] else 'all_known', 'stat:' + case['statistic'],
               'clustering:' + ('all' if sorted(case['clustering']) == list(range(nch)) else 'subset'))
 
@@ -195,8 +201,8 @@ def check(case, obs):
         return
     obs.claims['grouping'] += 1
     exact = wrong == 0
-    piled_idx = {None: None, 'brightest': npop - 1, 'dimmest': 0}[case['piled']]
     for c in range(nch):
+        piled_idx = {None: None, 'brightest': npop - 1, 'dimmest': 0}[_piled(case, c)]
         ch = chans[c]
         vals = out.statistic['values'][c]
         sel_rfi = np.asarray(out.selection['rfi'][c], dtype=float)
